@@ -16,6 +16,16 @@ use std::path::PathBuf;
 enum Case {
     None,
     Ev(ev::World),
+    Fts(fts::World),
+}
+
+fn end_case(case: &mut Case) {
+    match case {
+        Case::Ev(world) => world.cleanup(),
+        Case::Fts(world) => world.cleanup(),
+        Case::None => {}
+    }
+    *case = Case::None;
 }
 
 async fn run(ops: &str, out: &str, stats_path: Option<&str>, work: PathBuf) {
@@ -23,17 +33,28 @@ async fn run(ops: &str, out: &str, stats_path: Option<&str>, work: PathBuf) {
     let mut w = BufWriter::new(std::fs::File::create(out).expect("out file"));
     let mut stats = Stats::default();
     let mut case = Case::None;
+    let mut case_index: i64 = -1;
+    let mut oracle_lines: Vec<String> = vec![];
     let _ = std::fs::create_dir_all(&work);
     for line in std::io::BufReader::new(f).lines() {
         let line = line.unwrap();
         let (kind, kv) = parse_kv(&line);
         let get = |k: &str| kv.get(k).and_then(|v| v.parse::<u64>().ok());
         let res: String = if kind == "case" {
-            if let Case::Ev(world) = &mut case {
-                world.cleanup();
-            }
-            case = Case::None;
+            end_case(&mut case);
+            case_index += 1;
             match (get("id"), kv.get("eng").map(|x| x.as_str())) {
+                (Some(id), Some("fts")) => {
+                    let sites = get("sites").unwrap_or(1).clamp(1, 2);
+                    match fts::World::new(work.clone(), id, sites).await {
+                        Ok(world) => {
+                            case = Case::Fts(world);
+                            stats.inc("cases");
+                            format!("case {}", id)
+                        }
+                        Err(e) => format!("case-failed {}", e),
+                    }
+                }
                 (Some(id), Some("ev")) => {
                     let sites = get("sites").unwrap_or(1).clamp(1, 2);
                     let subs = get("subs").unwrap_or(1).clamp(1, 3) as usize;
@@ -57,15 +78,25 @@ async fn run(ops: &str, out: &str, stats_path: Option<&str>, work: PathBuf) {
                     }
                     r
                 }
+                Case::Fts(world) => {
+                    let mut found = vec![];
+                    let r = world.op(&kind, &kv, &mut stats, &mut found).await;
+                    for (sig, detail) in found {
+                        stats.inc(&format!("oracle.{}", sig));
+                        oracle_lines.push(format!("{} {} {}", case_index.max(0), sig, detail));
+                    }
+                    r
+                }
                 Case::None => "bad-op".into(),
             }
         };
         writeln!(w, "{}", res).unwrap();
     }
-    if let Case::Ev(world) = &mut case {
-        world.cleanup();
-    }
+    end_case(&mut case);
     w.flush().unwrap();
+    if !oracle_lines.is_empty() {
+        std::fs::write(format!("{}.oracle", out), oracle_lines.join("\n") + "\n").unwrap();
+    }
     if let Some(p) = stats_path {
         stats.write(p);
     }
